@@ -106,6 +106,10 @@ TrTestTimer ==
           ELSE IF ErrAllowed(Ev.err, s) THEN TRUE
                ELSE PrintT(<<"MISMATCH", l, "test_timer Err(e) names a condition that does not hold", "e", Ev.err,
                              "summary", [s EXCEPT !.means = {BitLenW(m) : m \in s.means}], "mean", s.mainMean>>) /\ FALSE
+       /\ IF Has(Ev, "err_text") /\ ~TextAllowed(Ev.err_text, s)
+          THEN PrintT(<<"MISMATCH", l, "the text of test_timer's error names a condition that does not hold", "text", Ev.err_text,
+                        "variant", Ev.err>>) /\ FALSE
+          ELSE TRUE
        \* the documented idiom rng.set_rounds(rng.test_timer()?) must not meet the assertion
        /\ Has(Ev, "set_panic") => Expect("set_rounds(test_timer()?) panics", FALSE, Ev.set_panic)
        /\ LET newRounds == IF Has(Ev, "set_panic") /\ ~Ev.set_panic THEN Ev.ok_rounds ELSE jit[Ev.g].rounds IN
